@@ -1,9 +1,15 @@
 # C08 — Builder/Compiler serialization = direct assembling
 CORE = ['asmjit/core/builder.cpp', 'asmjit/core/emitter.cpp', 'asmjit/core/globals.cpp', 'asmjit/core/operand.cpp', 'asmjit/core/type.cpp', 'asmjit/core/emitterutils.cpp']
 UNITS = [Unit('builder', harness=['h_builder.cpp'], repo_units=CORE)]
-HARNESSES = [
-] + [Harness('builder', 'h_emit_rt_%d' % n, unwind=17, mem_gb=10, timeout=1200, bounds='one instruction: any 32-bit id, any option bits, any extra register bits, first %d operands arbitrary 16 bytes each (so any of them may also be none), optional inline comment' % n) for n in (0, 2, 3, 4, 6)] + [
-]
+HARNESSES = [Harness('builder', 'h_capture_%d' % n, unwind=17, mem_gb=8, timeout=900, tiers=('quick', 'thorough') if n in (0, 3, 6) else ('thorough',), bounds='one instruction: any 32-bit id, any option bits, any extra register bits, first %d operands arbitrary 16 bytes each (any of them may be none), optional inline comment' % n) for n in (0, 1, 3, 4, 6)]
+KINDS = ['label', 'align', 'embed-label', 'label-delta', 'comment', 'data']
+for k in range(6):
+    for o in 'ab':
+        HARNESSES.append(Harness('builder', 'h_replay_k%d_%s' % (k, o), unwind=17, mem_gb=8, timeout=900, 
+                                 bounds='two-node list (instruction node %s): instruction node with any id/options/extra register/a concrete number of arbitrary operands (0..6 across the family)/optional comment, and a %s node with arbitrary field values' % ('first' if o == 'a' else 'second', KINDS[k])))
+for n in ['add_node_empty', 'add_node_front', 'add_node_mid', 'add_node_end', 'add_after_mid', 'add_after_last', 'add_before_first', 'add_before_mid', 'remove_only', 'remove_first',
+          'remove_mid_cursor', 'remove_last', 'remove_range_mid', 'remove_range_head', 'remove_range_tail', 'remove_range_all']:
+    HARNESSES.append(Harness('builder', 'h_edit_' + n, unwind=17, mem_gb=6, timeout=600, bounds='one list edit (%s) on a well-formed list of up to 4 label nodes with arbitrary label ids; list shape, edited position and cursor position are concrete per harness' % n))
 EXPLANATION = 'bounded symbolic execution of the real BaseBuilder capture and serialize_to replay against a recording emitter'
 OUTSIDE = ['byte equality for whole programs (follows from capture/replay identity plus determinism of the assembler back end; not re-proved)', 'Compiler-specific nodes (func/invoke)']
-ASSUMPTIONS = ['Arena replaced by the malloc-backed stub include/arena_stub.h (one malloc per request; the arena itself is C18)', 'destination emitter is a recording model that clears the one-shot state as real emitters do']
+ASSUMPTIONS = ['extension operands (4th..6th) are passed densely, as the typed emit() overloads do', 'Arena replaced by the malloc-backed stub include/arena_stub.h (one malloc per request; the arena itself is C18)', 'destination emitter is a recording model that clears the one-shot state as real emitters do']
